@@ -256,25 +256,7 @@ def run(ck, prog):
            if re.search(r"Cell<|RefCell<|Mutex<|RwLock<|Atomic|OnceCell<|OnceLock<|UnsafeCell<", f["t"])]
     ck.ob("R10.5", "no-memo-state", not bad, "LineIndex fields: %s" % [f["n"] + ": " + f["t"] for v in adt["variants"] for f in v["fields"]],
           msg="LineIndex holds interior-mutable state (%s): answers can depend on the order of earlier queries" % [f["n"] for f in bad])
-    rb = prog.body("lsp::to_proto::range")
-    ck.anchor(rb is not None, "to_proto::range not found")
-    okr = False
-    for i, t in rb.calls():
-        if (Body.callee(t) or "").endswith("Range::new"):
-            so = prov.origins(rb, t["args"][0])
-            eo = prov.origins(rb, t["args"][1])
-            def via(o, which):
-                good = bool(o)
-                for x in o:
-                    if not (x[0] == "call" and x[1] == "lsp::to_proto::position"):
-                        return False
-                    ao = prov.origins(rb, rb.term(x[2])["args"][1])
-                    good = good and all(y[0] == "call" and y[1].endswith("TextRange::" + which) for y in ao)
-                return good
-            okr = via(so, "start") and via(eo, "end")
-    ck.ob("R10.6", "range-endpoints", okr, "Range::new(position(range.start()), position(range.end()))",
-          msg="to_proto::range no longer converts both endpoints through position(): an endpoint derived from the other one "
-              "is wrong when the range crosses a line break")
+    range_endpoints(ck, prog, "R10.6")
 
     # ---- R10.2 -------------------------------------------------------------------
     feats = ropey_features()
@@ -382,3 +364,26 @@ def conversion_basis(ck, prog, rule):
             ck.ob(rule, "result:%s" % name, got in (LI_RESULT[name], "const"), "%s returns %s" % (name, got),
                   msg="LineIndex::%s returns a value in %s, expected %s: positions sent to the client are off for text with "
                       "multi-byte or astral characters" % (name, got, LI_RESULT[name]))
+
+
+def range_endpoints(ck, prog, rule):
+    """shared with C09: to_proto::range converts each endpoint of the byte range through position() on its own"""
+    rb = prog.body("lsp::to_proto::range")
+    ck.anchor(rb is not None, "to_proto::range not found")
+    okr = False
+    for i, t in rb.calls():
+        if (Body.callee(t) or "").endswith("Range::new"):
+            so = prov.origins(rb, t["args"][0])
+            eo = prov.origins(rb, t["args"][1])
+            def via(o, which):
+                good = bool(o)
+                for x in o:
+                    if not (x[0] == "call" and x[1] == "lsp::to_proto::position"):
+                        return False
+                    ao = prov.origins(rb, rb.term(x[2])["args"][1])
+                    good = good and all(y[0] == "call" and y[1].endswith("TextRange::" + which) for y in ao)
+                return good
+            okr = via(so, "start") and via(eo, "end")
+    ck.ob(rule, "range-endpoints", okr, "Range::new(position(range.start()), position(range.end()))",
+          msg="to_proto::range no longer converts both endpoints through position(): an endpoint derived from the other one "
+              "is wrong when the range crosses a line break or contains a character that is not exactly one column unit wide")
